@@ -81,26 +81,12 @@ Theorem C18_fs_all_histories_pinned : forall O,
 Proof. intros O Hdel h G2 G4. apply fs_trace_ok; [exact Hdel | right; split; assumption]. Qed.
 Print Assumptions C18_fs_all_histories_pinned.
 
-(** the invariant: the stored hash is (the hash of) the latest valid content seen *)
-Theorem C18_fs_stored_hash : forall O,
-  (forall s, deletable O s = true) ->
-  forall h f,
-  fs_known (fst (fs_run O true h)) f = latest_valid (accepts O) (seen_of (fs_trace O true h) (Sid f)).
-Proof. intros O Hdel h f. apply fs_known_latest_valid; [exact Hdel | left; reflexivity]. Qed.
-Print Assumptions C18_fs_stored_hash.
-
 (** HTTP endpoint: all sequences of polls and fetch outcomes *)
 Theorem C18_http_all_histories : forall O,
   (forall s, deletable O s = true) ->
   forall h, trace_ok (accepts O) (http_trace O h) = true.
 Proof. exact http_trace_ok. Qed.
 Print Assumptions C18_http_all_histories.
-
-Theorem C18_http_stored_hash : forall O,
-  (forall s, deletable O s = true) ->
-  forall h e, fst (http_run O h) e = latest_valid (accepts O) (seen_of (http_trace O h) (Sid e)).
-Proof. exact http_known_latest_valid. Qed.
-Print Assumptions C18_http_stored_hash.
 
 (** HTTP endpoint, in terms of the fetch outcomes alone: for all sequences of polls,
     what is loaded from endpoint [e] is the latest valid content among what its polls
@@ -112,19 +98,16 @@ Theorem C18_http_latest_valid : forall O h e,
 Proof. exact http_latest_valid. Qed.
 Print Assumptions C18_http_latest_valid.
 
+(** the reading of "the endpoint cannot be reached" matters: under the other one
+    (a failed poll says nothing, the rule set is kept) the provider is not right *)
+Theorem C18_http_reading_keep_refuted :
+  exists h, trace_ok (accepts O_all) (mk_trace (http_views_r false h) (map h_calls (snd (http_run O_all h)))) <> true /\
+            trace_ok (accepts O_all) (mk_trace (http_views_r true h) (map h_calls (snd (http_run O_all h)))) = true /\
+            flat_map (fun x => map p_kind (h_calls x)) (snd (http_run O_all h)) = [KCreated; KDeleted; KCreated].
+Proof. exact http_reading_keep_refuted. Qed.
+Print Assumptions C18_http_reading_keep_refuted.
+
 (** ** File system at world level: files change, notifications arrive in any order *)
-
-(** stored hash = hash of the content last applied — every history, both dispatch
-    variants, any processor *)
-Theorem C18_fs_active_is_stored_hash : forall O fixed h f,
-  active_of (fs_trace O fixed h) (Sid f) = fs_known (fst (fs_run O fixed h)) f.
-Proof. exact fs_active_is_known. Qed.
-Print Assumptions C18_fs_active_is_stored_hash.
-
-Theorem C18_http_active_is_stored_hash : forall O h e,
-  active_of (http_trace O h) (Sid e) = fst (http_run O h) e.
-Proof. exact http_active_is_known. Qed.
-Print Assumptions C18_http_active_is_stored_hash.
 
 (** fairness, the provider as it is now: after the last change of file [f]
     (history [h1], then [f] now holds [w], then [h2] without a change of [f]), if
@@ -209,8 +192,8 @@ Theorem C18_blob_all_histories : forall O,
   (forall s, deletable O s = true) ->
   forall nk md h,
   forallb (conforms nk md) h = true ->
-  blob_guard_F5 (accepts O) h = false ->
-  blob_guard_F6 h = false ->
+  blob_guard_F5 (accepts O) nk h = false ->
+  blob_guard_F6 (accepts O) nk h = false ->
   trace_ok (accepts O) (blob_trace O nk true h) = true.
 Proof. intros O Hdel nk md h Hc G5 G6. apply (blob_trace_ok O Hdel nk true md); [exact Hc | left; reflexivity | exact G5 | exact G6]. Qed.
 Print Assumptions C18_blob_all_histories.
@@ -222,25 +205,28 @@ Theorem C18_blob_all_histories_pinned : forall O,
   forall nk md h,
   forallb (conforms nk md) h = true ->
   blob_guard_F1 nk h = false ->
-  blob_guard_F5 (accepts O) h = false ->
-  blob_guard_F6 h = false ->
+  blob_guard_F5 (accepts O) nk h = false ->
+  blob_guard_F6 (accepts O) nk h = false ->
   trace_ok (accepts O) (blob_trace O nk false h) = true.
 Proof. intros O Hdel nk md h Hc G1 G5 G6. apply (blob_trace_ok O Hdel nk false md); [exact Hc | right; exact G1 | exact G5 | exact G6]. Qed.
 Print Assumptions C18_blob_all_histories_pinned.
 
-Theorem C18_blob_stored_hash : forall O,
-  (forall s, deletable O s = true) ->
-  forall nk md h b k,
-  forallb (conforms nk md) h = true ->
-  blob_guard_F5 (accepts O) h = false ->
-  blob_guard_F6 h = false ->
-  fst (blob_run O true nk h) b k = latest_valid (accepts O) (seen_of (blob_trace O nk true h) (bkey b k)).
-Proof. intros O Hdel nk md h b k Hc G5 G6. apply (blob_known_latest_valid O Hdel nk true md); [exact Hc | left; reflexivity | exact G5 | exact G6]. Qed.
-Print Assumptions C18_blob_stored_hash.
+(** inside the guards: an unreadable blob in a listing, or a missing named blob, makes
+    the provider abandon the poll — nothing is called, nothing is forgotten *)
+Theorem C18_blob_unreadable_poll_changes_nothing : forall O fixed nk b st l,
+  existsb (fun kw => unreadable (snd kw)) l = true ->
+  blob_watch O fixed nk b st (BList l) = hres_nop st true.
+Proof. exact blob_unreadable_poll_changes_nothing. Qed.
+Print Assumptions C18_blob_unreadable_poll_changes_nothing.
+
+Theorem C18_blob_single_absent_changes_nothing : forall O fixed nk b st k,
+  blob_watch O fixed nk b st (BSingle k CAbsent) = hres_nop st true.
+Proof. exact blob_single_absent_changes_nothing. Qed.
+Print Assumptions C18_blob_single_absent_changes_nothing.
 
 (** C18-F1: the removed blob k1 stays active although the provider forgot it *)
 Theorem C18_blob_F1_pinned_refuted :
-  exists h, blob_guard_F1 2 h = true /\ blob_guard_F5 (accepts O_all) h = false /\ blob_guard_F6 h = false /\
+  exists h, blob_guard_F1 2 h = true /\ blob_guard_F5 (accepts O_all) 2 h = false /\ blob_guard_F6 (accepts O_all) 2 h = false /\
             forallb (conforms 2 (fun _ => None)) h = true /\
             trace_ok (accepts O_all) (blob_trace O_all 2 false h) <> true /\
             trace_ok (accepts O_all) (blob_trace O_all 2 true h) = true /\
@@ -251,7 +237,7 @@ Print Assumptions C18_blob_F1_pinned_refuted.
 
 (** C18-F5: k0 became invalid; k1's update and k2's removal are not applied *)
 Theorem C18_blob_F5_refuted :
-  exists h, blob_guard_F5 (accepts O_all) h = true /\ blob_guard_F6 h = false /\
+  exists h, blob_guard_F5 (accepts O_all) 3 h = true /\ blob_guard_F6 (accepts O_all) 3 h = false /\
             forallb (conforms 3 (fun _ => None)) h = true /\
             trace_ok (accepts O_all) (blob_trace O_all 3 true h) <> true /\
             active_of (blob_trace O_all 3 true h) (bkey 0 1) = Some 2 /\
@@ -261,7 +247,7 @@ Print Assumptions C18_blob_F5_refuted.
 
 (** C18-F6: the blob named by the URL was deleted; its rule set stays active *)
 Theorem C18_blob_F6_refuted :
-  exists h, blob_guard_F6 h = true /\ blob_guard_F5 (accepts O_all) h = false /\
+  exists h, blob_guard_F6 (accepts O_all) 1 h = true /\ blob_guard_F5 (accepts O_all) 1 h = false /\
             forallb (conforms 1 (fun _ => Some 0)) h = true /\
             trace_ok (accepts O_all) (blob_trace O_all 1 true h) <> true /\
             active_of (blob_trace O_all 1 true h) (bkey 0 0) = Some 1.
@@ -308,7 +294,7 @@ Print Assumptions C18_k8s_converges.
 
 (** C18-F7: deleted while the watch is broken — the provider as it is panics
     (the process dies, the rule set stays loaded); the repaired one unloads it *)
-Theorem C18_k8s_F7_refuted :
+Theorem C18_k8s_F7_pinned_refuted :
   exists h, k8s_wf 1 h = true /\ k8s_guard_F7 1 h = true /\ k8s_guard_F8 1 h = false /\
             panicked (snd (k8s_run O_all false false 1 h)) = true /\
             panicked (snd (k8s_run O_all true false 1 h)) = false /\
@@ -316,12 +302,12 @@ Theorem C18_k8s_F7_refuted :
             active_of (k8s_raw_trace O_all false false 1 h) (Sid 0) = Some 1 /\
             active_of (k8s_raw_trace O_all true false 1 h) (Sid 0) = None.
 Proof. exact k8s_F7_refuted. Qed.
-Print Assumptions C18_k8s_F7_refuted.
+Print Assumptions C18_k8s_F7_pinned_refuted.
 
 (** C18-F8: deleted and re-created under the same name while the watch is broken —
     the old object's rule set stays loaded, the new one's is never loaded; the
     repaired update handler unloads the old and loads the new *)
-Theorem C18_k8s_F8_refuted :
+Theorem C18_k8s_F8_pinned_refuted :
   exists h, k8s_wf 1 h = true /\ k8s_guard_F8 1 h = true /\ k8s_guard_F7 1 h = false /\
             trace_ok (accepts O_all) (norm_trace (k8s_raw_trace O_all true false 1 h)) <> true /\
             active_of (k8s_raw_trace O_all true false 1 h) (Sid 0) = Some 1 /\
@@ -330,4 +316,4 @@ Theorem C18_k8s_F8_refuted :
             active_of (k8s_raw_trace O_all true true 1 h) (Sid 0) = None /\
             active_of (k8s_raw_trace O_all true true 1 h) (Sid 1) = Some 2.
 Proof. exact k8s_F8_refuted. Qed.
-Print Assumptions C18_k8s_F8_refuted.
+Print Assumptions C18_k8s_F8_pinned_refuted.
